@@ -86,7 +86,7 @@ pub fn execute_transfer_to_insurance_fund(
     deps: Deps,
     env: Env,
     amount: Uint128,
-) -> StdResult<SubMsg> {
+) -> StdResult<Option<SubMsg>> {
     let config = read_config(deps.storage)?;
 
     let token_balance = query_token_balance(
@@ -101,7 +101,16 @@ pub fn execute_transfer_to_insurance_fund(
         amount
     };
 
-    execute_transfer(deps.storage, &config.insurance_fund, amount_to_send)
+    // the transfer is capped at the vault balance, nothing is sent from an empty vault
+    if amount_to_send.is_zero() {
+        return Ok(None);
+    }
+
+    Ok(Some(execute_transfer(
+        deps.storage,
+        &config.insurance_fund,
+        amount_to_send,
+    )?))
 }
 
 pub fn execute_insurance_fund_withdrawal(deps: Deps, amount: Uint128) -> StdResult<SubMsg> {
